@@ -43,6 +43,46 @@ func levelKeyKind(c *core.Ctx, fn *core.Func, info *types.Info, key ast.Expr, at
 	}
 	obj := core.ObjOf(info, key)
 	if obj == nil {
+		// a level written out in place, computed from this iteration's own element: uint(ids[i]) + diff inside
+		// `for i := …` / `for _, id := range ids`, without reading any per-level state
+		if _, isIdent := key.(*ast.Ident); !isIdent {
+			readsLevelState := false
+			ast.Inspect(key, func(x ast.Node) bool {
+				if ix, ok := x.(*ast.IndexExpr); ok && isLevelKeyed(info.TypeOf(ix.X)) {
+					readsLevelState = true
+				}
+				return true
+			})
+			if !readsLevelState {
+				for _, pn := range pathTo(fn.Decl.Body, at) {
+					var loopVars []types.Object
+					switch s := pn.(type) {
+					case *ast.RangeStmt:
+						if isLevelKeyed(info.TypeOf(s.X)) {
+							continue
+						}
+						if s.Key != nil {
+							loopVars = append(loopVars, core.ObjOf(info, s.Key))
+						}
+						if s.Value != nil {
+							loopVars = append(loopVars, core.ObjOf(info, s.Value))
+						}
+					case *ast.ForStmt:
+						if as, ok := s.Init.(*ast.AssignStmt); ok && len(as.Lhs) == 1 {
+							if strings.HasSuffix(canon(s.Cond), "deepestLevel") {
+								continue
+							}
+							loopVars = append(loopVars, core.ObjOf(info, as.Lhs[0]))
+						}
+					}
+					for _, lv := range loopVars {
+						if lv != nil && core.UsesObj(info, key, lv) {
+							return "level computed in place from this iteration's element (" + canon(key) + ")"
+						}
+					}
+				}
+			}
+		}
 		return ""
 	}
 	// parameter of level type: callers are checked by the caller-side obligations (one hop)
